@@ -1,4 +1,5 @@
 import NomtModel.Store.LeafPushChunk5
+import NomtModel.Props.C16_GenFn
 /-!
 # C16 (topic: `LeafBuilder::{new, push_cell, push_chunk, finish}` at the byte level)
 
@@ -142,14 +143,19 @@ theorem T16_leaf_push_chunk_empty_range :
     (lbPushChunk .none lbExB0 lbExBase 1 1).isPanic = false := by
   refine ⟨by decide +kernel, by decide +kernel, by decide +kernel⟩
 
+/-- T16.leafb-10 **capacity from the gauge**: the hypothesis `2 + 34 n + total ≤ PAGE` of T16.leafb-1 (hence of the whole
+builder run) is the callers' precondition in the terms of the CURRENT source: `leaf::node::body_size(n, total)` (the
+translated function, `T16_fn_leaf_body_size`) is at most `LEAF_NODE_BODY_SIZE = 4096 − 2`. -/
+theorem T16_leaf_fit_of_gauge (n total bs : Nat) (hg : GenFn.leaf_body_size n total = some bs) (hbs : bs ≤ 4096 - 2)
+    (hn : n < 2 ^ 32) (ht : total < 2 ^ 32) : 2 + 34 * n + total ≤ PAGE := by
+  obtain ⟨h1, h2⟩ := T16_fn_leaf_body_size n total hn ht
+  rw [h1] at hg
+  cases hg
+  rw [h2] at hbs
+  show 2 + 34 * n + total ≤ 4096
+  omega
+
+example : 2 + 34 * 3 + 47 ≤ PAGE := T16_leaf_fit_of_gauge 3 47 149 (by decide) (by decide) (by decide) (by decide)
+
 end Nomt.C16
 
-#print axioms Nomt.C16.T16_leaf_builder_new
-#print axioms Nomt.C16.T16_leaf_push_cell
-#print axioms Nomt.C16.T16_leaf_push_chunk_rt
-#print axioms Nomt.C16.T16_leaf_decoder_accepts_iff
-#print axioms Nomt.C16.T16_leaf_finish_decodes
-#print axioms Nomt.C16.T16_leaf_chunk_then_cells_decode
-#print axioms Nomt.C16.T16_leaf_push_chunk_rebase_cex
-#print axioms Nomt.C16.T16_leaf_push_chunk_overflow_bit_cex
-#print axioms Nomt.C16.T16_leaf_push_chunk_empty_range
